@@ -35,11 +35,13 @@ type mSeries struct {
 
 // fileCase is the replayable description of one whole-file case.
 type fileCase struct {
-	Kind       string    `json:"kind"` // "data_file"
-	SegRows    int       `json:"seg_rows"`     // max rows per segment
-	SegRowsRaw bool      `json:"seg_rows_raw"` // set like [data] max-rows-per-segment (no rounding to a multiple of 8)
-	MetaMode   int       `json:"meta_mode"`    // chunk-meta compression when the file is written
-	ReadMode   int       `json:"read_mode"`    // chunk-meta compression configured when the file is reopened
+	Kind       string    `json:"kind"`                 // "data_file"
+	SegRows    int       `json:"seg_rows"`             // max rows per segment
+	SegRowsRaw bool      `json:"seg_rows_raw"`         // set like [data] max-rows-per-segment (no rounding to a multiple of 8)
+	MetaMode   int       `json:"meta_mode"`            // chunk-meta compression when the file is written
+	ReadMode   int       `json:"read_mode"`            // chunk-meta compression configured when the file is reopened
+	Mmap       bool      `json:"mmap,omitempty"`       // [data] enable-mmap-read
+	ReadCache  bool      `json:"read_cache,omitempty"` // data and meta read caches enabled
 	Series     []mSeries `json:"series"`
 	// Strict also applies the oracle parts left out of the generated campaign for known findings (set in their replay files).
 	Strict bool `json:"strict,omitempty"`
@@ -48,18 +50,22 @@ type fileCase struct {
 type fileOutcome struct {
 	segments   int
 	metaBlocks int
+	bigChunks  int
 	preaggSkip map[string]int
 	excluded   map[string]int // known-finding classes whose oracle part was left out
 }
 
-// known finding C07-preagg-sentinel (replays/C07/file_preagg_int_max_sentinel.json, file_preagg_float_inf_sentinel.json):
-// the pre-aggregation builders start from min=MaxInt64/MaxFloat64, max=MinInt64/-MaxFloat64 and only replace them on a
-// strict comparison, so an extreme that equals (or, for +-Inf, lies beyond) the start value is never recorded.
-const exclPreaggZeroNaN = "pre-agg sum of a float column holding only zeros and NaN (chunk-meta mode self)"
-
-const exclPreaggBoolTime = "time of the pre-agg min/max of a boolean column that has nulls"
-
-const exclPreaggSentinel = "pre-agg min/max of a column whose extreme is MaxInt64/MinInt64, +-MaxFloat64 or +-Inf"
+// Known-finding classes whose part of the oracle is left out of the generated run (each has a replay with "strict": true).
+const (
+	// C07-preagg-sentinel (replays/C07/file_preagg_int_max_sentinel.json, file_preagg_float_inf_sentinel.json): the
+	// pre-aggregation builders start from min=MaxInt64/MaxFloat64, max=MinInt64/-MaxFloat64 and only replace them on a strict
+	// comparison, so an extreme that equals (or, for +-Inf and NaN, lies beyond) the start value is never recorded.
+	exclPreaggSentinel = "pre-agg min/max of a column whose extreme is MaxInt64/MinInt64, +-MaxFloat64 or +-Inf"
+	// C07-preagg-bool-null-time (replays/C07/file_preagg_bool_null_time.json)
+	exclPreaggBoolTime = "time of the pre-agg min/max of a boolean column that has nulls"
+	// C07-preagg-zero-nan-sum (replays/C07/file_preagg_zero_nan_sum.json)
+	exclPreaggZeroNaN = "pre-agg sum of a float column holding only zeros and NaN (chunk-meta mode self)"
+)
 
 var prio = fileops.IO_PRIORITY_NORMAL
 
@@ -80,6 +86,14 @@ func checkDataFile(fc *fileCase) (out fileOutcome, err error) {
 	}
 	defer os.RemoveAll(dir)
 
+	fileops.EnableMmapRead(fc.Mmap)
+	defer fileops.EnableMmapRead(false)
+	if fc.ReadCache {
+		fileops.EnableReadDataCache(32 << 20)
+		fileops.EnableReadMetaCache(32 << 20)
+		defer fileops.EnableReadDataCache(0)
+		defer fileops.EnableReadMetaCache(0)
+	}
 	immutable.SetChunkMetaCompressMode(fc.MetaMode)
 	var conf *immutable.Config
 	if fc.SegRowsRaw {
@@ -158,6 +172,22 @@ func verifyFile(fc *fileCase, f immutable.TSSPFile, segRows int, how string, out
 	}
 	if st.ContainsId(fc.Series[0].ID-1) && fc.Series[0].ID > 0 || fc.Series[len(fc.Series)-1].ID < math.MaxUint64 && st.ContainsId(fc.Series[len(fc.Series)-1].ID+1) {
 		return wrap(fmt.Errorf("trailer id range is wider than [%d,%d]", fc.Series[0].ID, fc.Series[len(fc.Series)-1].ID))
+	}
+
+	// ---- id / last time / row count table (used by the sequencer to classify later writes)
+	pairs := &immutable.IdTimePairs{}
+	if e := f.LoadIdTimes(pairs); e != nil {
+		return wrap(fmt.Errorf("LoadIdTimes: %v", e))
+	}
+	if len(pairs.Ids) != len(fc.Series) || len(pairs.Tms) != len(fc.Series) || len(pairs.Rows) != len(fc.Series) {
+		return wrap(fmt.Errorf("id-time table has %d ids, %d times, %d row counts; %d series written", len(pairs.Ids), len(pairs.Tms), len(pairs.Rows), len(fc.Series)))
+	}
+	for i := range fc.Series {
+		s := &fc.Series[i]
+		if pairs.Ids[i] != s.ID || pairs.Tms[i] != s.Rec.Times[s.Rec.rows()-1] || pairs.Rows[i] != int64(s.Rec.rows()) {
+			return wrap(fmt.Errorf("id-time table entry %d: id %d last time %d rows %d, want id %d last time %d rows %d", i, pairs.Ids[i], pairs.Tms[i], pairs.Rows[i],
+				s.ID, s.Rec.Times[s.Rec.rows()-1], s.Rec.rows()))
+		}
 	}
 
 	// ---- every meta block, every chunk meta in file order
@@ -304,6 +334,19 @@ func verifyChunk(f immutable.TSSPFile, cm *immutable.ChunkMeta, s *mSeries, cols
 	schema = append(schema, timeRef)
 	if n, e := cm.TimeMeta().RowCount(&timeRef, ctx); e != nil || n != int64(rows) {
 		return fmt.Errorf("row count in the time column meta = %d, %v; want %d", n, e, rows)
+	}
+	if full {
+		var size int64
+		for i := range cmeta {
+			for seg := 0; seg < wantSegs; seg++ {
+				sg := cmeta[i].GetSegment(seg)
+				_, n := sg.OffsetSize()
+				size += int64(n)
+			}
+		}
+		if size >= 64*1024 {
+			out.bigChunks++ // read segment by segment instead of as one block
+		}
 	}
 	pos := 0
 	for seg := 0; seg < wantSegs; seg++ {
@@ -615,6 +658,14 @@ func TestDataFile(t *testing.T) {
 		if fc.ReadMode != fc.MetaMode {
 			c.Class("reopened_under_other_chunkmeta_mode")
 		}
+		fc.Mmap = rapid.IntRange(0, 3).Draw(t, "mmap") == 3
+		fc.ReadCache = rapid.IntRange(0, 3).Draw(t, "readcache") == 3
+		if fc.Mmap {
+			c.Class("read=mmap")
+		}
+		if fc.ReadCache {
+			c.Class("read=cached")
+		}
 		nser := rapid.OneOf(rapid.IntRange(1, 4), rapid.IntRange(1, 40)).Draw(t, "nseries")
 		id := rapid.OneOf(rapid.Uint64Range(1, 1000), rapid.Uint64Range(1, 1<<62)).Draw(t, "id0")
 		maxRows := 300
@@ -678,6 +729,9 @@ func TestDataFile(t *testing.T) {
 				t.Skip(err.Error())
 			}
 			c.Failf(t, prop, fc, "%v", err)
+		}
+		if out.bigChunks > 0 {
+			c.Class("chunk>=64KiB")
 		}
 		if out.metaBlocks > 1 {
 			c.Class("meta_blocks>1")
